@@ -101,7 +101,9 @@ func (r *Reconciler) Reconcile(id controller.ID) (controller.Result, error) {
 			log.Infof("Elected new master '%s' in term %d for Configuration '%s'", config.Status.Mastership.Master, config.Status.Mastership.Term, config.ID)
 		}
 
-		// Update the Configuration status
+		// Update the Configuration status. Only the mastership is updated: writing back the copy of the applied path
+		// values read above would overwrite values applied since.
+		config.Applied.Values = nil
 		err = r.configurations.UpdateStatus(ctx, config)
 		if err != nil {
 			if !errors.IsNotFound(err) && !errors.IsConflict(err) {
